@@ -1576,22 +1576,99 @@ fn sys_for(mode: Mode, n: usize) -> Sys {
     Sys { max_nodes: n, max_slots: 3, mode, vals: 2, dirty: true }
 }
 
-/// Plain re-execution of a history on a FRESH thread (its priority generator at the start of its stream,
-/// advanced by `predraws` draws).  The states reached do not depend on the values drawn (see the comment
-/// on `Pred`); `predraws` only matters for code under test that draws priorities of its own.
+/// Plain re-execution of a history on a FRESH thread, after `predraws` node creations on that thread.  The
+/// states reached do not depend on the values drawn (see the comment on `Pred`) unless the code under test
+/// draws priorities of its own or compares them in an unusual way; for those cases a replay names the
+/// thread ordinal and the stream offset, and runs in a process of its own (`HistCase`).
 fn replay_fresh(mode: Mode, n: usize, hist: Vec<Value>, predraws: usize) -> Result<(), String> {
     std::thread::spawn(move || {
-        for _ in 0..predraws {
-            let _ = real_draw();
-        }
         if predraws > 0 {
-            // the model generator is synchronised at a thread's first node creation only
-            PRED.with(|p| *p.borrow_mut() = Pred::Lost);
+            // synchronising the model generator takes the thread's first two draws
+            let _ = predict_next();
+            for _ in 0..predraws.saturating_sub(2) {
+                model_saw(real_draw());
+            }
         }
         replay_history(&sys_for(mode, n), &hist)
     })
     .join()
     .unwrap_or_else(|_| Err("replay thread panicked".to_string()))
+}
+
+/// A history of the exploration together with where its thread's generator stands: `thread` threads of the
+/// process create a node before the history's thread does, and that thread creates `predraws` nodes first.
+#[derive(Clone)]
+struct HistCase {
+    mode: Mode,
+    n: usize,
+    hist: Vec<Value>,
+    thread: usize,
+    predraws: usize,
+}
+
+const HIST_ENV: &str = "ENG_TREAP_HISTORY_CASE";
+
+impl HistCase {
+    fn to_json(&self) -> Value {
+        json!({"kind": "history", "mode": if self.mode == Mode::C03 { "C03" } else { "C16" }, "n": self.n, "history": self.hist, "thread": self.thread, "predraws": self.predraws})
+    }
+
+    fn from_json(v: &Value, mode: Mode) -> Result<HistCase, String> {
+        let mode = match v["mode"].as_str() {
+            Some("C03") => Mode::C03,
+            Some("C16") => Mode::C16,
+            _ => mode,
+        };
+        match (v["n"].as_u64(), v["history"].as_array()) {
+            (Some(n), Some(h)) => Ok(HistCase { mode, n: n as usize, hist: h.clone(), thread: v["thread"].as_u64().unwrap_or(0) as usize, predraws: v["predraws"].as_u64().unwrap_or(0) as usize }),
+            _ => Err("n / history missing".into()),
+        }
+    }
+
+    /// in THIS process, which must not have created a node yet
+    fn run_here(&self) -> Result<(), String> {
+        for _ in 0..self.thread {
+            let _ = std::thread::spawn(|| { let _ = real_draw(); }).join();
+        }
+        replay_fresh(self.mode, self.n, self.hist.clone(), self.predraws)
+    }
+
+    /// Ok(result of the replay) or Err(machinery problem)
+    fn run_in_child(&self) -> Result<Result<(), String>, String> {
+        let exe = std::env::current_exe().map_err(|e| format!("current_exe: {e}"))?;
+        let out = std::process::Command::new(&exe)
+            .args([if self.mode == Mode::C03 { "C03" } else { "C16" }, "quick"])
+            .env(HIST_ENV, self.to_json().to_string())
+            .env_remove(CASE_ENV)
+            .output()
+            .map_err(|e| format!("cannot run {}: {e}", exe.display()))?;
+        let text = String::from_utf8_lossy(&out.stdout);
+        let v: Value = match text.lines().find_map(|l| l.strip_prefix("CASE-RESULT ")).map(serde_json::from_str) {
+            Some(Ok(v)) => v,
+            _ => return Err(format!("history replay in a process of its own gave no result ({:?})", out.status)),
+        };
+        match (v["ok"].as_bool(), v["msg"].as_str()) {
+            (Some(true), _) => Ok(Ok(())),
+            (Some(false), Some(m)) => Ok(Err(m.to_string())),
+            _ => Err("malformed result of a history replay".into()),
+        }
+    }
+}
+
+fn hist_child_main(case: &str, mode: Mode) -> ! {
+    let case = match serde_json::from_str::<Value>(case).map_err(|e| e.to_string()).and_then(|v| HistCase::from_json(&v, mode)) {
+        Ok(c) => c,
+        Err(e) => {
+            eprintln!("malformed {HIST_ENV}: {e}");
+            std::process::exit(2)
+        }
+    };
+    let r = match case.run_here() {
+        Ok(()) => json!({"ok": true}),
+        Err(m) => json!({"ok": false, "msg": m}),
+    };
+    println!("CASE-RESULT {r}");
+    std::process::exit(0)
 }
 
 /// direct checks on the public constructors that the exploration does not call
@@ -1638,6 +1715,9 @@ fn main() {
             std::process::exit(2)
         }
     };
+    if let Ok(case) = std::env::var(HIST_ENV) {
+        hist_child_main(&case, mode);
+    }
     // a `--replay` process has created no node yet: it is itself the "process of its own" of a case
     let fresh_process = args.replay.is_some();
     let confirm = move |v: &Value| -> Result<(), String> {
@@ -1649,8 +1729,19 @@ fn main() {
             }
             "constructors" => check_constructors(),
             _ => {
-                let hist: Vec<Value> = v["history"].as_array().unwrap().clone();
-                replay_fresh(mode, v["n"].as_u64().unwrap() as usize, hist, v["predraws"].as_u64().unwrap_or(0) as usize)
+                let case = HistCase::from_json(v, mode).map_err(|e| format!("replay file: {e}"))?;
+                if fresh_process {
+                    case.run_here()
+                } else {
+                    match case.run_in_child() {
+                        Ok(r) => r,
+                        Err(m) => {
+                            // never a verdict
+                            println!("MACHINERY-FAILURE property={} engine=treap {m}", if mode == Mode::C03 { "C03" } else { "C16" });
+                            std::process::exit(2)
+                        }
+                    }
+                }
             }
         }
     };
@@ -1692,9 +1783,26 @@ fn main() {
         if let Some(f) = &r.violation {
             let sig = format!("explore:N={}:{}", n, serde_json::to_string(&f.history).unwrap());
             // a defect that draws priorities of its own makes the outcome depend on where the thread's
-            // generator stands: look for the first stream offset at which a fresh thread reproduces it
-            let predraws = (0..24usize).find(|&d| replay_fresh(mode, n, f.history.clone(), d).is_err()).unwrap_or(0);
-            run.violation(Violation::new(sig, format!("[N={n}] {}", f.message), json!({"kind": "history", "n": n, "history": f.history, "predraws": predraws})));
+            // generator stands: look for the first (thread ordinal, stream offset) at which a fresh thread
+            // of a fresh process reproduces it
+            let mut found = None;
+            'grid: for thread in 0..4usize {
+                for predraws in [0usize, 2, 3, 4, 5, 6, 7, 8] {
+                    let case = HistCase { mode, n, hist: f.history.clone(), thread, predraws };
+                    match case.run_in_child() {
+                        Ok(Err(m)) => {
+                            found = Some((case, m));
+                            break 'grid;
+                        }
+                        Ok(Ok(())) => {}
+                        Err(m) => run.machinery_failure(&m),
+                    }
+                }
+            }
+            match found {
+                Some((case, m)) => run.violation(Violation::new(sig, format!("[N={n}] {m}"), case.to_json())),
+                None => run.machinery_failure(&format!("the exploration reported [N={n}] {} for {sig}, but 32 replays on fresh threads of fresh processes (thread ordinals 0..4, stream offsets 0..8) all pass", f.message)),
+            }
             break;
         }
         for h in r.sample_histories.iter().take(1) {
